@@ -10,7 +10,7 @@ class C01(FullCheck):
           'pool) on the virtual clock; 3-120 calls with per-call timeouts from 5 ms to 30 s issued in '
           'bursts and trickles (also before the client has opened); per request the simulated server '
           'answers fast / around the caller\'s deadline (+-0.1..20 ms, or exactly on it in the boundary '
-          'class) / late / never, possibly chunked; refused, slow and black-holed connects; I/O faults '
+          'class) / late / never, possibly chunked, or dies after 1-30 bytes of the reply (end of stream inside a frame; a read loop that then reads the dead connection 2000 times in one instant without yielding is reported as a spin and broken); every 11th case logs at debug level through a handler that yields; refused, slow and black-holed connects; I/O faults '
           'at seeded operations; servers going down/up; members leaving/joining; same-instant timer '
           'order fifo/lifo/random; bursts of asynchronous calls with tiny timeouts after which the application '
           'keeps the CPU past their deadlines (the clock moves, the loop does not). Oracle per call over the whole history incl. a quiet tail >= 4 T_max: '
@@ -20,7 +20,8 @@ class C01(FullCheck):
           'timed out; distinct by (stack, #endpoints, balancer, open mode, outcome multiset, race classes)')
   REQUIRED_CLASSES = ('thrift', 'mux', 'issued-before-open', 'reply-before-timer', 'timer-before-reply',
                       'reply:near-deadline', 'reply:late', 'reply:never', 'server-down', 'leave', 'boundary',
-                      'io-fault:recv', 'io-fault:send', 'cpu-hog', 'reply:undecodable', 'unserialisable-argument')
+                      'io-fault:recv', 'io-fault:send', 'cpu-hog', 'reply:undecodable', 'unserialisable-argument',
+                      'reply-cut-short-then-eof', 'yielding-log-handler')
   ASSUMPTIONS = ('deadline = issue time + T on the virtual clock; rounded up to the 10 ms grid in exact '
                  'rationals, 2 us float tolerance; no timer lateness injected',)
 
